@@ -23,6 +23,7 @@ REQUIRED_EXCLUDED = {"open", "compile", "input", "breakpoint", "memoryview", "pr
 FORMS = [
     "import math", "import os", "import os.path", "import os as x", "import math, os", "import os, math", "import json, subprocess as sp",
     "import json.decoder", "import homeassistant.const", "import homeassistant.core", "from json.decoder import JSONDecoder", "from homeassistant.const import x",
+    "from stubs_util import helper", "from stubsx.sub import y", "import stubs_util",
     "from os import path", "from os.path import *", "from os import path as p", "from math import floor", "from subprocess import run, PIPE",
 ]
 
@@ -34,7 +35,7 @@ def _atoms(c):
         s = repr(atom)
         if "module_import" in s:
             # one decision per imported module name
-            for nm in ("math", "os.path", "os", "json.decoder", "json", "subprocess", "homeassistant.const", "homeassistant.core"):
+            for nm in ("math", "os.path", "os", "json.decoder", "json", "subprocess", "homeassistant.const", "homeassistant.core", "stubs_util", "stubsx.sub"):
                 if f"'{nm}'" in s:
                     per[nm] = val
         if "config_entry" in s and "get" in s:
@@ -48,7 +49,7 @@ def run(ctx):
     if not {"math", "json"} <= allowed or {"os", "subprocess"} & allowed:
         raise AnalysisError("ALLOWED_IMPORTS no longer contains math/json or now contains os/subprocess: adjust the probe names")
 
-    ctx.rule("R17.1", "import handlers: ModuleNotFoundError before any binding/import exactly when not found, not allow_all and not on the allow-list - per name", floor=12)
+    ctx.rule("R17.1", "import handlers: ModuleNotFoundError before any binding/import exactly when not found, not allow_all and not on the allow-list - per name", floor=15)
     pol = HandlerPolicy(program, opaque_methods=("call_func", "log_exception", "get_names", "ast_attribute_collapse", "loopvar_scope_save", "loopvar_scope_restore"))
     pol.mod_consts["ALLOWED_IMPORTS"] = Const(frozenset(allowed))
     heap = dict(MODULE_SCOPE)
@@ -74,6 +75,8 @@ def run(ctx):
                 for i, m in enumerate(mods):
                     found = per.get(m)
                     if found is None:
+                        if i == 0 and kind == "return":
+                            problems.append(f"the statement completes without ever looking up module {m}: nothing is imported, bound or refused")
                         break  # this name was never reached on this path
                     if not found and not allow and m not in allowed:
                         expect_raise_at = i
@@ -105,6 +108,13 @@ def run(ctx):
             and out.get("return") and not out.get("raise")
         ctx.check(bool(quiet), "R17.1", "eval.py::AstEval.ast_importfrom", f"`{src}` binds nothing and imports nothing",
                   msg=f"`{src}`: stubs imports are no longer ignored", key=f"stubs form `{src}`", node=program.func("eval.py::AstEval.ast_importfrom"), rel="eval.py")
+
+    ctx.rule("R17.5", "pyscript modules are searched where the documentation says: <root>/<dotted name as path>/__init__.py, then <root>/<dotted name as path>.py, apps/ before modules/ for apps", floor=8)
+    from .c11 import import_candidate_cases
+    mi = "global_ctx.py::GlobalContext.module_import"
+    for case, got in import_candidate_cases(program):
+        ctx.check(got == "ok", "R17.5", mi, f"candidates: {case}", msg=f"module_import: {case}: {got}: an existing pyscript module is not found (ModuleNotFoundError) or another file is imported in its place",
+                  key=f"candidates {case}", node=program.func(mi), rel="global_ctx.py")
 
     ctx.rule("R17.2", "importlib.import_module, sys.modules, exec and compile are used only at the reviewed sites", floor=3)
     allowed_sites = {
